@@ -54,7 +54,8 @@ func runRangeE2E(dir, backend, in, out, sizes string) error {
 	}
 	// resources: /c<1000+size>/r ; the origin serves the body whatever Range says
 	for _, sz := range szs {
-		d.cases[1000+sz] = &Case{ID: 1000 + sz, Status: 200, Sbody: "range", RespItems: []Item{{W: "Cache-Control", V: "max-age=600"}, {W: "Content-Type", V: "application/octet-stream"}}}
+		d.cases[1000+sz] = &Case{ID: 1000 + sz, Status: 200, Sbody: "range", RespItems: []Item{{W: "Cache-Control", V: "max-age=600"},
+			{W: "Content-Type", V: "application/octet-stream"}, {W: "ETag", V: `"v1"`}, {W: "Last-Modified", V: rangeLM.Format(http.TimeFormat)}}}
 	}
 	rangeBodies = map[int][]byte{}
 	for _, sz := range szs {
@@ -86,7 +87,7 @@ func runRangeE2E(dir, backend, in, out, sizes string) error {
 		conn, br = c, bufio.NewReader(c)
 		return nil
 	}
-	do := func(sz int, value string, withRange bool) (int, http.Header, []byte, error) {
+	do := func(sz int, value string, withRange bool, ir string) (int, http.Header, []byte, error) {
 		for attempt := 0; attempt < 2; attempt++ {
 			if conn == nil {
 				if err := dial(); err != nil {
@@ -97,6 +98,9 @@ func runRangeE2E(dir, backend, in, out, sizes string) error {
 			fmt.Fprintf(&b, "GET http://%s/c%d/r HTTP/1.1\r\nHost: %s\r\n", d.ohost, 1000+sz, d.ohost)
 			if withRange {
 				fmt.Fprintf(&b, "Range: %s\r\n", value)
+			}
+			if v, ok := ifRangeValue(ir); ok {
+				fmt.Fprintf(&b, "If-Range: %s\r\n", v)
 			}
 			b.WriteString("\r\n")
 			conn.SetDeadline(time.Now().Add(5 * time.Second))
@@ -128,7 +132,7 @@ func runRangeE2E(dir, backend, in, out, sizes string) error {
 	}
 	// put every resource into the store
 	for _, sz := range szs {
-		if st, _, _, err := do(sz, "", false); err != nil || st != 200 {
+		if st, _, _, err := do(sz, "", false, ""); err != nil || st != 200 {
 			return fmt.Errorf("priming size %d: status %d err %v", sz, st, err)
 		}
 	}
@@ -142,9 +146,10 @@ func runRangeE2E(dir, backend, in, out, sizes string) error {
 		p, _ := m["p"].(string)
 		t, _ := m["t"].([]any)
 		value := renderRange(p, t)
+		ir, _ := m["ir"].(string)
 		for _, sz := range szs {
 			full := rangeBodies[1000+sz]
-			st, h, body, err := do(sz, value, true)
+			st, h, body, err := do(sz, value, true, ir)
 			var o []any
 			switch {
 			case err != nil:
@@ -172,10 +177,51 @@ func runRangeE2E(dir, backend, in, out, sizes string) error {
 			default:
 				o = []any{"status", st}
 			}
-			enc.Encode(map[string]any{"p": p, "t": t, "size": sz, "out": o, "v": value})
+			if ir == "" {
+				ir = "none"
+			}
+			enc.Encode(map[string]any{"p": p, "t": t, "size": sz, "out": o, "v": value, "ir": ir})
 		}
 	}
 	return sc.Err()
 }
 
 var rangeBodies map[int][]byte
+
+// the stored representation's Last-Modified, and the If-Range forms of spec/RangeSpec.tla
+var rangeLM = time.Date(2020, 1, 5, 7, 0, 0, 0, time.UTC)
+
+func ifRangeValue(form string) (string, bool) {
+	older, newer := rangeLM.Add(-24*time.Hour), rangeLM.Add(24*time.Hour)
+	switch form {
+	case "etag_match":
+		return `"v1"`, true
+	case "etag_other":
+		return `"v2"`, true
+	case "etag_unquoted":
+		return "v1", true
+	case "star":
+		return "*", true
+	case "etag_weak":
+		return `W/"v1"`, true
+	case "date_eq":
+		return rangeLM.Format(http.TimeFormat), true
+	case "date_older":
+		return older.Format(http.TimeFormat), true
+	case "date_older_850":
+		return older.Format(time.RFC850), true
+	case "date_older_asc":
+		return older.Format(time.ANSIC), true
+	case "date_nogmt":
+		return strings.TrimSuffix(rangeLM.Format(http.TimeFormat), " GMT"), true
+	case "date_garbage":
+		return "yesterday", true
+	case "date_eq_850":
+		return rangeLM.Format(time.RFC850), true
+	case "date_newer":
+		return newer.Format(http.TimeFormat), true
+	case "empty":
+		return "", true
+	}
+	return "", false
+}
